@@ -429,11 +429,59 @@ pub fn c11(ctx: &Ctx) -> (CheckMeta, Outcome) {
             out
         }));
     }
+    // bit streams through the adapter over byte sinks (plain, 3 bytes per call, committing on flush only)
+    // vs memory: histories ending exactly on a word boundary and in the middle of a word
+    for e in crate::model::End::BOTH {
+        for wbits in [8usize, 16, 32, 64, 128] {
+            tasks.push(Box::new(move || {
+                use crate::wr::WOp;
+                let mut out = Outcome::new();
+                out.cov.configs.insert(format!("bitstream/{}/w{}", e.name(), wbits));
+                let mut hs: Vec<Vec<WOp>> = vec![];
+                for total in [wbits, 2 * wbits, 3 * wbits, wbits - 1, wbits + 1, 2 * wbits + 5, 7] {
+                    // reach `total` bits with 64-bit pieces, with a unary code, and with a code write
+                    let mut h = vec![];
+                    let mut left = total;
+                    while left > 0 {
+                        let c = left.min(61);
+                        h.push(WOp::WriteBits { v: 0x1F3A_5C77_9E21_D0B5 & ((1u64 << c) - 1), n: c as u8 });
+                        left -= c;
+                    }
+                    hs.push(h);
+                    hs.push(vec![WOp::Unary(total as u64 - 1)]);
+                    hs.push(vec![WOp::WriteBits { v: 1, n: 1 }, WOp::Unary(total as u64 - 2)]);
+                    hs.push(vec![WOp::Unary(total as u64 - 1), WOp::Flush, WOp::Unary(total as u64 - 1)]);
+                }
+                for h in &hs {
+                    for backend in ["adapter", "adapter3", "adapterlazy"] {
+                        for finisher in crate::wr::FINISHERS {
+                            out.cov.transitions += h.len() as u64;
+                            out.cov.traces_validated += 1;
+                            if let Err((symptom, detail)) = crate::wrsys::check_real(e, wbits, backend, finisher, h) {
+                                if out.violations.len() < 12 {
+                                    out.violations.push(Violation {
+                                        property: "C11".into(),
+                                        system: format!("adapter-bitstream:{}:{}", backend, finisher),
+                                        config: format!("{}/w{}", e.name(), wbits),
+                                        op_class: "write".into(),
+                                        symptom,
+                                        detail: detail.chars().take(300).collect(),
+                                        replay: crate::wrsys::replay_doc(e, wbits, "", backend, finisher, h),
+                                    });
+                                }
+                            }
+                        }
+                    }
+                }
+                out
+            }));
+        }
+    }
     let out = run_all(tasks, threads());
     let meta = CheckMeta {
         property: "C11".into(),
         level: "model_checking".into(),
-        rule: "deviation-bounded exploration of the environment: the Read/Write wrapped by WordAdapter answers every call by an explorer choice (write: whole buffer | every short count 0..len-1 | Interrupted | hard error; flush: Ok | Err; read: as much as possible | every short count | Interrupted | hard error | EOF); ALL schedules with at most 3 (thorough 5) deviations from the default answer, for word sizes 8..128 and sequences of 1..3 words (reads: plus a partial trailing word of 0, 1, W/8-1 bytes); oracle: every write_word that returned Ok has put exactly its native-endian bytes, once and in order, into the sink; every Ok(read_word) is the next W/8 source bytes and exactly those were consumed; a partial trailing word is an error. states = schedules executed, transitions = environment calls. Plus explicit-state BFS (depth 6, thorough 7) of WordAdapter over a seekable Cursor (read_word, write_word, set_word_pos 0..6, word_pos) against a byte-vector model, starting from a stream at offset 0 and from streams already positioned after 1 or 2 words: word_pos = words preceding the cursor after every call, seeking addresses that word. Bit streams through the adapter vs memory are part of C01 (backend 'adapter'), C02/C07 (backends 'cursor', 'bufreader')".into(),
+        rule: "deviation-bounded exploration of the environment: the Read/Write wrapped by WordAdapter answers every call by an explorer choice (write: whole buffer | every short count 0..len-1 | Interrupted | hard error; flush: Ok | Err; read: as much as possible | every short count | Interrupted | hard error | EOF); ALL schedules with at most 3 (thorough 5) deviations from the default answer, for word sizes 8..128 and sequences of 1..3 words (reads: plus a partial trailing word of 0, 1, W/8-1 bytes); oracle: every write_word that returned Ok has put exactly its native-endian bytes, once and in order, into the sink; every Ok(read_word) is the next W/8 source bytes and exactly those were consumed; a partial trailing word is an error. states = schedules executed, transitions = environment calls. Plus explicit-state BFS (depth 6, thorough 7) of WordAdapter over a seekable Cursor (read_word, write_word, set_word_pos 0..6, word_pos) against a byte-vector model, starting from a stream at offset 0 and from streams already positioned after 1 or 2 words: word_pos = words preceding the cursor after every call, seeking addresses that word. Bit streams written through the adapter over three sinks (Vec, a sink accepting 3 bytes per call, a sink that commits only on flush) with every finisher, for totals of exactly 1, 2, 3 words and off-boundary lengths, must leave exactly the memory image in the sink; further bit streams through the adapter vs memory are part of C01 (backend 'adapter'), C02/C07 (backends 'cursor', 'bufreader')".into(),
         assumptions: vec!["the environment alphabet covers what std::io::Read/Write allow: short transfers, Interrupted, errors".into()],
     };
     (meta, out)
